@@ -181,6 +181,7 @@ type verifIPTRule struct {
 	proto int // 0 none, 1 tcp, 2 udp, 3 vrrp
 	dport int // 0 none, 1 port 80, 2 range 80..65535 (only tcp/udp)
 	state int // 0 none, 1 ESTABLISHED+RELATED
+	syn   int // 0 none, 1 --syn, 2 ! --syn (only tcp; Netspoc writes only the negated form)
 	jump  int // 0 ACCEPT, 1 DROP, 2 chain c1
 }
 
@@ -206,12 +207,20 @@ func verifPickRule(t string) verifIPTRule {
 	r.dport = vf.Int(t+".dport", 0, 2)
 	vf.Assume(vf.Or(vf.EqInt(r.dport, 0), vf.Or(vf.EqInt(r.proto, 1), vf.EqInt(r.proto, 2))))
 	r.state = vf.FixInt(vf.Int(t+".state", 0, 1))
+	if strings.HasPrefix(t, "a") {
+		r.syn = vf.FixInt(vf.Int(t+".syn", 0, 2))
+	} else {
+		r.syn = 2 * vf.FixInt(vf.Int(t+".syn", 0, 1))
+	}
+	if r.syn != 0 {
+		vf.Assume(vf.EqInt(r.proto, 1))
+	}
 	r.jump = vf.Int(t+".jump", 0, 2)
 	return r
 }
 
 func verifSameRule(a, b verifIPTRule) bool {
-	if a.src != b.src || a.neg != b.neg || a.state != b.state {
+	if a.src != b.src || a.neg != b.neg || a.state != b.state || a.syn != b.syn {
 		return false
 	}
 	return vf.And(vf.EqInt(a.proto, b.proto), vf.And(vf.EqInt(a.dport, b.dport), vf.EqInt(a.jump, b.jump)))
@@ -242,8 +251,12 @@ func verifSpell(r verifIPTRule, t string, kernel bool) string {
 		l += vf.SelectString(r.proto, []string{"", " -p tcp", " -p udp", " -p 112"})
 		// the kernel adds '-m <proto>' when port options are used
 		withPort := vf.Not(vf.EqInt(r.dport, 0))
+		if r.syn != 0 {
+			withPort = true
+		}
 		l += vf.IteString(withPort, vf.SelectString(r.proto, []string{"", " -m tcp", " -m udp", ""}), "")
 		l += vf.SelectString(r.dport, []string{"", " --dport 80", " --dport 80:65535"})
+		l += []string{"", " --tcp-flags FIN,SYN,RST,ACK SYN", " ! --tcp-flags FIN,SYN,RST,ACK SYN"}[r.syn]
 	} else {
 		up := vf.Bool(t + ".upperProto")
 		l += vf.IteString(up, vf.SelectString(r.proto, []string{"", " -p TCP", " -p UDP", " -p VRRP"}),
@@ -251,6 +264,7 @@ func verifSpell(r verifIPTRule, t string, kernel bool) string {
 		open := vf.Bool(t + ".openRange")
 		l += vf.IteString(open, vf.SelectString(r.dport, []string{"", " --dport 80", " --dport 80:"}),
 			vf.SelectString(r.dport, []string{"", " --dport 080", " --dport 80:65535"}))
+		l += []string{"", " --syn", " ! --syn"}[r.syn]
 	}
 	if r.state == 1 {
 		if kernel {
@@ -266,7 +280,7 @@ func verifSpell(r verifIPTRule, t string, kernel bool) string {
 // VerifIPTables: one chain with up to N rules per side.
 func VerifIPTables() {
 	N, _ := strconv.Atoi(vf.Param("N", "1"))
-	vf.Assumption("iptables rules are built from abstract fields (source none/host/net, negation, protocol none/tcp/udp/vrrp, dport none/80/80..65535, state, jump) in the documented spellings of Netspoc and of iptables-save (/32, upper/lower case, vrrp|112, -m <proto>, 080, 80:|80:65535, state order, '!' before or behind the key)")
+	vf.Assumption("iptables rules are built from abstract fields (source none/host/net, negation, protocol none/tcp/udp/vrrp, dport none/80/80..65535, state, SYN flag match --syn / --tcp-flags FIN,SYN,RST,ACK SYN with and without negation on the device and negated in the target, jump) in the documented spellings of Netspoc and of iptables-save (/32, upper/lower case, vrrp|112, -m <proto>, 080, 80:|80:65535, state order, '!' before or behind the key)")
 	n := vf.Int("n", 0, N)
 	m := vf.Int("m", 0, N)
 	var A, B []verifIPTRule
@@ -336,6 +350,9 @@ func VerifDeterminismLinux() {
 		ndiff++
 	}
 	if ra.state != rb.state {
+		ndiff++
+	}
+	if ra.syn != rb.syn {
 		ndiff++
 	}
 	if vf.FixInt(ra.proto) != vf.FixInt(rb.proto) {
